@@ -3,7 +3,9 @@
 //! property monitors (conservation, order, drops, deadlock, panic).
 //!
 //! stdin, one scenario per line:
-//!   <flavour> <cap> <runs> <seed> [trace] | P: ops | P: ops | C: ops ...
+//!   <flavour> <cap> <runs> <seed> [trace] [pct|rand] [results] | P: ops | P: ops | C: ops ...
+//!   (`pct` / `rand` force that policy for every run instead of the 2:1 mix; `results` adds a
+//!    `results t0=[..] t1=[..]` line (API results of the traced run) right after the result line)
 //! thread ops: s (send) ts (try_send) r (recv) tr (try_recv) rt (recv_timeout 20us)
 //!             D (drain: recv until Disconnected)  y (yield)
 //! stdout per scenario:
@@ -33,6 +35,9 @@ enum Res {
   SendOk(u64),
   SendFull(u64),
   SendClosed(u64),
+  /// a blocking `send` failed: its error type carries no payload, so the value was consumed
+  /// and dropped by the channel (exactly one drop expected)
+  SendGone(u64),
   Val(u64),
   Empty,
   Disc,
@@ -58,7 +63,7 @@ macro_rules! impl_tx {
         let id = p.0;
         match <$t>::send(self, p) {
           Ok(()) => Res::SendOk(id),
-          Err(_) => Res::SendClosed(id),
+          Err(_) => Res::SendGone(id),
         }
       }
       fn try_send(&mut self, p: P) -> Res {
@@ -198,6 +203,8 @@ struct Scenario {
   runs: usize,
   seed: u64,
   trace: bool,
+  force: Option<bool>,
+  show_results: bool,
   threads: Vec<ThreadSpec>,
 }
 
@@ -218,6 +225,8 @@ fn parse(line: &str) -> Scenario {
     runs: head[2].parse().unwrap(),
     seed: head[3].parse().unwrap(),
     trace: head.get(4) == Some(&"trace"),
+    force: if head[4.min(head.len())..].contains(&"pct") { Some(true) } else if head[4.min(head.len())..].contains(&"rand") { Some(false) } else { None },
+    show_results: head[4.min(head.len())..].contains(&"results"),
     threads,
   }
 }
@@ -333,6 +342,7 @@ fn judge(sc: &Scenario, r: &OneRun) -> Option<(String, String)> {
   let mut sent_ok = Vec::new();
   let mut handed_back = Vec::new();
   let mut got = Vec::new();
+  let mut gone = Vec::new();
   let mut drained = false;
   for (ti, th) in sc.threads.iter().enumerate() {
     let mut last_from: std::collections::HashMap<u64, u64> = Default::default();
@@ -341,6 +351,7 @@ fn judge(sc: &Scenario, r: &OneRun) -> Option<(String, String)> {
       match res {
         Res::SendOk(id) => sent_ok.push(*id),
         Res::SendFull(id) | Res::SendClosed(id) => handed_back.push(*id),
+        Res::SendGone(id) => gone.push(*id),
         Res::Val(id) => {
           if seen_disc {
             return Some(("C04:value-after-disc".into(), format!("thread {ti} received {id} after Disconnected")));
@@ -388,6 +399,12 @@ fn judge(sc: &Scenario, r: &OneRun) -> Option<(String, String)> {
   }
   // drops: after all handles are gone every id was dropped exactly once unless it was
   // returned to user code (received or handed back; those we forget()) => channel drops = accepted - received
+  for id in &gone {
+    let d = DROPS[*id as usize % MAXID].load(Ordering::SeqCst);
+    if d != 1 {
+      return Some((if d == 0 { "C09:leak".into() } else { "C09:double-drop".into() }, format!("id {id} was consumed by a failed blocking send and dropped {d}x")));
+    }
+  }
   for id in sent_ok.iter().chain(handed_back.iter()) {
     let d = DROPS[*id as usize % MAXID].load(Ordering::SeqCst);
     let returned = got.contains(id) || handed_back.contains(id);
@@ -399,6 +416,20 @@ fn judge(sc: &Scenario, r: &OneRun) -> Option<(String, String)> {
     }
   }
   None
+}
+
+fn fmt_results(rs: &[Vec<Res>]) -> String {
+  let one = |r: &Res| match r {
+    Res::SendOk(i) => format!("ok:{i}"),
+    Res::SendFull(i) => format!("full:{i}"),
+    Res::SendClosed(i) => format!("closed:{i}"),
+    Res::SendGone(i) => format!("gone:{i}"),
+    Res::Val(i) => format!("val:{i}"),
+    Res::Empty => "empty".to_string(),
+    Res::Disc => "disc".to_string(),
+    Res::Timeout => "timeout".to_string(),
+  };
+  rs.iter().enumerate().map(|(t, v)| format!("t{t}=[{}]", v.iter().map(one).collect::<Vec<_>>().join(","))).collect::<Vec<_>>().join(" ")
 }
 
 fn main() {
@@ -420,7 +451,8 @@ fn main() {
     let mut first: Option<OneRun> = None;
     for i in 0..sc.runs {
       let seed = sc.seed.wrapping_mul(1_000_003).wrapping_add(i as u64);
-      let policy = if i % 3 == 2 { Policy::Pct(seed, 3) } else { Policy::Random(seed) };
+      let pct = sc.force.unwrap_or(i % 3 == 2);
+      let policy = if pct { Policy::Pct(seed, 3) } else { Policy::Random(seed) };
       let r = run_once(&sc, policy, sc.trace || i == 0);
       steps += r.steps;
       events += r.events;
@@ -437,6 +469,9 @@ fn main() {
       Some((c, d, i, seed, r)) => {
         let ch: Vec<String> = r.choices.iter().map(|c| c.to_string()).collect();
         writeln!(out, "FAIL {c} run={i} seed={seed} :: {d} :: choices={}", ch.join(",")).unwrap();
+        if sc.show_results {
+          writeln!(out, "results {}", fmt_results(&r.results)).unwrap();
+        }
         if sc.trace {
           namer.prime(&r.trace);
           for rec in &r.trace {
@@ -447,6 +482,9 @@ fn main() {
       }
       None => {
         writeln!(out, "ok runs={} steps={} events_recorded={}", sc.runs, steps, events).unwrap();
+        if sc.show_results {
+          writeln!(out, "results {}", first.as_ref().map(|r| fmt_results(&r.results)).unwrap_or_default()).unwrap();
+        }
         if sc.trace {
           if let Some(r) = first {
             namer.prime(&r.trace);
